@@ -28,7 +28,7 @@
 (* FineAdd = TRUE additionally splits addEndpoints into its check and its  *)
 (* Store (the code's check-then-act on the sync.Map; there is no seam in   *)
 (* the real code to stop a goroutine there, so these behaviours are        *)
-(* model-only).                                                            *)
+(* model-only).  AddIfAbsent = TRUE is the repair (LoadOrStore).           *)
 (*                                                                         *)
 (* Deviations of the code from the properties, as boolean constants        *)
 (* (TRUE = prescriptive design, FALSE = the code as it is):                *)
@@ -58,7 +58,7 @@ CONSTANTS
     SoftCfgs,           \* possible values of pki.softfail (chosen once per behaviour)
     Vias,               \* entry points: "check" (CheckCRL), "strict" (CheckCRLStrict), "tls" (VerifyPeerCertificate)
     MaxTime, MaxEnv, MaxVal, MaxRounds, CountRounds,
-    KeepNewer, SoftfailChecksRest, IssuerAlwaysChecked, FineAdd,
+    KeepNewer, SoftfailChecksRest, IssuerAlwaysChecked, FineAdd, AddIfAbsent,
     Hist,
     IssuerOf(_),        \* certificate -> its issuer
     DPs(_),             \* certificate -> sequence of its CRL distribution points
@@ -206,7 +206,8 @@ VBegin(t, ch, via, cn) ==
 VAdd(t) ==
     /\ val[t].pc = "add"
     /\ LET v == val[t]  c == CertAt(v.ch, v.i) IN
-       /\ crls' = [crls EXCEPT ![v.at] = [iss |-> IssuerOf(c), obj |-> EmptyObj]]
+       /\ crls' = IF AddIfAbsent /\ crls[v.at].iss # "-" THEN crls          \* LoadOrStore
+                  ELSE [crls EXCEPT ![v.at] = [iss |-> IssuerOf(c), obj |-> EmptyObj]]
        /\ val' = [val EXCEPT ![t].pc = "req"]
        /\ hist' = Log([a |-> "VAdd", t |-> t])
     /\ UNCHANGED <<now, srv, dlsrv, dl, cfgsoft, syn, conns, best, vcount, env, rounds>>
@@ -417,6 +418,9 @@ StopsAtRevoked ==
 BannedConn(c) == c \in conns /\ c \in dl.ban
 BannedClosed ==
     (<>[](dlsrv.kind = "good")) => \A c \in Conns : (BannedConn(c) ~> ~BannedConn(c))
+\* without the availability assumption the property does NOT hold (a peer validated before the ban and registered after the
+\* revalidation stays connected until the next successful Update): used as vacuity guard
+BannedClosedUncond == \A c \in Conns : (BannedConn(c) ~> ~BannedConn(c))
 \* every validation returns, every round ends
 Terminates == /\ \A t \in Vals : (val[t].pc # "idle") ~> (val[t].pc = "idle")
               /\ syn.run ~> ~syn.run
